@@ -290,55 +290,220 @@ Proof.
     + intros m'. simpl. rewrite Z.eqb_refl. intros Hm; inversion Hm; lia.
 Qed.
 
-Lemma block_samples_in p x : In x (block_samples p) -> In x p.
+(* ------------------------------------------------------------------ Append / Commit batches *)
+Lemma last_ts_sample k s : last_ts k s = option_map s_ts (last_sample k s).
+Proof. induction k as [|a k IH]; simpl; auto. destruct (s_sid a =? s); auto. Qed.
+
+Lemma last_sample_in k s z : last_sample k s = Some z -> In z k /\ s_sid z = s.
 Proof.
-  unfold block_samples. rewrite <- in_rev. intros H. apply commit_sound in H. destruct H as [?|[]]; auto.
+  induction k as [|a k IH]; simpl; [discriminate|].
+  destruct (s_sid a =? s) eqn:E.
+  - intros H; inversion H; subst. apply Z.eqb_eq in E. auto.
+  - intros H. destruct (IH H). auto.
 Qed.
 
-Lemma block_samples_complete p x : ordered1 p -> In x p -> In x (block_samples p).
+Lemma last_sample_max k s z : dec_rev k -> last_sample k s = Some z ->
+  forall y, In y k -> s_sid y = s -> s_ts y <= s_ts z.
 Proof.
-  intros Ho Hx. unfold block_samples. rewrite <- in_rev. apply commit_complete; simpl; auto.
-  intros y m _ H. discriminate.
+  intros Hd H. assert (Hl : last_ts k s = Some (s_ts z)) by (rewrite last_ts_sample, H; reflexivity).
+  apply (last_ts_some _ _ _ Hd Hl).
 Qed.
 
-Lemma block_samples_nodup p : NoDup (map key (block_samples p)).
+Lemma dec_rev_unique k : dec_rev k -> forall x y, In x k -> In y k ->
+  s_sid x = s_sid y -> s_ts x = s_ts y -> x = y.
 Proof.
-  unfold block_samples. rewrite map_rev. apply NoDup_rev. apply dec_rev_nodup. apply commit_dec. simpl; auto.
+  induction k as [|a k IH]; intros Hd x y Hx Hy Hs Ht; [destruct Hx|].
+  destruct Hd as [H1 H2]. destruct Hx as [<-|Hx], Hy as [<-|Hy]; auto.
+  - specialize (H1 y Hy (eq_sym Hs)). lia.
+  - specialize (H1 x Hx Hs). lia.
 Qed.
 
-Lemma block_samples_nil : block_samples [] = [].
+Lemma ordered1_app_l a b : ordered1 (a ++ b) -> ordered1 a.
+Proof.
+  induction a as [|x a IH]; simpl; auto. intros [H1 H2]. split; auto.
+  intros y Hy. apply H1. apply in_or_app. auto.
+Qed.
+
+Lemma ordered1_app_r a b : ordered1 (a ++ b) -> ordered1 b.
+Proof. induction a as [|x a IH]; simpl; auto. intros [_ H]. auto. Qed.
+
+Lemma ordered1_cross a b : ordered1 (a ++ b) -> forall z y, In z a -> In y b ->
+  s_sid y = s_sid z -> s_ts z < s_ts y \/ y = z.
+Proof.
+  induction a as [|x a IH]; intros H z y Hz Hy Hs; [destruct Hz|].
+  simpl in H. destruct H as [H1 H2]. destruct Hz as [<-|Hz].
+  - apply H1; auto. apply in_or_app. auto.
+  - apply IH; auto.
+Qed.
+
+Lemma append_all_sound l : forall k p c k', append_all l k p c = Some k' ->
+  forall x, In x k' -> In x l \/ In x k \/ In x p.
+Proof.
+  induction l as [|a l IH]; intros k p c k' H x Hx; simpl in H.
+  - inversion H; subst. apply commit_sound in Hx. rewrite <- in_rev in Hx. tauto.
+  - destruct (append_ok k a); [|discriminate].
+    destruct (c + 1 <? max_samples_in_appender).
+    + destruct (IH _ _ _ _ H x Hx) as [?|[?|Hp]]; simpl; auto. destruct Hp as [<-|?]; auto.
+    + destruct (IH _ _ _ _ H x Hx) as [?|[Hk|[]]]; simpl; auto.
+      apply commit_sound in Hk. destruct Hk as [Hk|?]; auto.
+      apply in_app_or in Hk. destruct Hk as [Hk|[<-|[]]]; auto. rewrite <- in_rev in Hk. auto.
+Qed.
+
+Lemma append_all_keeps l : forall k p c k', append_all l k p c = Some k' ->
+  forall x, In x k -> In x k'.
+Proof.
+  induction l as [|a l IH]; intros k p c k' H x Hx; simpl in H.
+  - inversion H; subst. apply commit_keeps; auto.
+  - destruct (append_ok k a); [|discriminate].
+    destruct (c + 1 <? max_samples_in_appender).
+    + eapply IH; [exact H|]; auto.
+    + eapply IH; [exact H|]. apply commit_keeps; auto.
+Qed.
+
+Lemma append_all_dec l : forall k p c k', dec_rev k -> append_all l k p c = Some k' -> dec_rev k'.
+Proof.
+  induction l as [|a l IH]; intros k p c k' Hd H; simpl in H.
+  - inversion H; subst. apply commit_dec; auto.
+  - destruct (append_ok k a); [|discriminate].
+    destruct (c + 1 <? max_samples_in_appender).
+    + eapply IH; [|exact H]; auto.
+    + eapply IH; [|exact H]. apply commit_dec; auto.
+Qed.
+
+Lemma last_sample_none_in k s : last_sample k s = None -> forall y, In y k -> s_sid y = s -> False.
+Proof.
+  induction k as [|a k IH]; intros H y Hy Hs; [destruct Hy|]. simpl in H.
+  destruct (s_sid a =? s) eqn:E; [discriminate|]. apply Z.eqb_neq in E.
+  destruct Hy as [<-|Hy]; eauto.
+Qed.
+
+(* what is still to be processed is ordered, and every such sample is later than, or is, the
+   last committed sample of its series *)
+Definition todo_ok (k q : list sample) : Prop :=
+  ordered1 q /\ forall x z, In x q -> last_sample k (s_sid x) = Some z -> s_ts z < s_ts x \/ x = z.
+
+Lemma todo_commit_complete k q : dec_rev k -> todo_ok k q -> forall x, In x q -> In x (commit q k).
+Proof.
+  intros Hd [Ho H1]. apply commit_complete; auto.
+  intros x m Hx Hl. rewrite last_ts_sample in Hl.
+  destruct (last_sample k (s_sid x)) as [z|] eqn:E; [|discriminate]. inversion Hl; subst.
+  destruct (H1 x z Hx E) as [?|Heq]; auto. subst z. right. apply (last_sample_in _ _ _ E).
+Qed.
+
+Lemma todo_after_commit k a b : dec_rev k -> todo_ok k (a ++ b) -> todo_ok (commit a k) b.
+Proof.
+  intros Hd [Ho H1]. pose proof (commit_dec a k Hd) as Hd2. split; [eapply ordered1_app_r; eauto|].
+  intros y z Hy Hz. destruct (last_sample_in _ _ _ Hz) as [Hzin Hzs].
+  destruct (commit_sound _ _ _ Hzin) as [Hza|Hzk].
+  - apply (ordered1_cross a b Ho z y); auto.
+  - destruct (last_sample k (s_sid y)) as [z0|] eqn:E0.
+    + pose proof (last_sample_max _ _ _ Hd E0 z Hzk Hzs) as Hle.
+      destruct (H1 y z0 (in_or_app _ _ _ (or_intror Hy)) E0) as [Hlt|Heq]; [left; lia|].
+      subst z0. right.
+      destruct (last_sample_in _ _ _ E0) as [Hyk _].
+      pose proof (last_sample_max _ _ _ Hd2 Hz y (commit_keeps a k y Hyk) eq_refl) as Hle2.
+      apply (dec_rev_unique _ Hd2); auto; [apply commit_keeps; auto|lia].
+    + exfalso. eapply last_sample_none_in; eauto.
+Qed.
+
+Lemma todo_prefix k a b : todo_ok k (a ++ b) -> todo_ok k a.
+Proof.
+  intros [Ho H1]. split; [eapply ordered1_app_l; eauto|].
+  intros x z Hx. apply H1. apply in_or_app. auto.
+Qed.
+
+Lemma append_all_complete l : forall k p c, dec_rev k -> todo_ok k (rev p ++ l) ->
+  exists k', append_all l k p c = Some k' /\ forall x, In x (rev p ++ l) -> In x k'.
+Proof.
+  induction l as [|a l IH]; intros k p c Hd Ht; simpl.
+  - eexists; split; eauto. rewrite app_nil_r in *. apply todo_commit_complete; auto.
+  - assert (Hok : append_ok k a = true).
+    { unfold append_ok. destruct (last_sample k (s_sid a)) as [z|] eqn:E; auto.
+      destruct Ht as [_ H1].
+      assert (Hin : In a (rev p ++ a :: l)) by (apply in_or_app; simpl; auto).
+      destruct (H1 a z Hin E) as [Hlt|Heq].
+      - replace (s_ts a >? s_ts z) with true; auto. symmetry. apply Z.gtb_lt. lia.
+      - subst z. rewrite Z.gtb_ltb, Z.ltb_irrefl, !Z.eqb_refl. auto. }
+    rewrite Hok.
+    assert (Hq : rev p ++ a :: l = rev (a :: p) ++ l) by (simpl; rewrite <- app_assoc; reflexivity).
+    destruct (c + 1 <? max_samples_in_appender).
+    + rewrite Hq in *. apply IH; auto.
+    + rewrite Hq in Ht.
+      pose proof (todo_after_commit k (rev (a :: p)) l Hd Ht) as Ht2.
+      destruct (IH (commit (rev (a :: p)) k) [] 0 (commit_dec _ _ Hd) Ht2) as (k' & Hk' & Hall).
+      exists k'. split; [exact Hk'|]. rewrite Hq. intros x Hx. apply in_app_or in Hx. destruct Hx as [Hx|Hx].
+      * eapply append_all_keeps; eauto. apply todo_commit_complete; auto.
+        eapply todo_prefix; eauto.
+      * apply Hall. simpl. auto.
+Qed.
+
+(* ------------------------------------------------------------------ one block *)
+Lemma block_samples_in p k x : block_samples p = Some k -> In x k -> In x p.
+Proof.
+  unfold block_samples. destruct (append_all p [] [] 0) as [k0|] eqn:E; [|discriminate].
+  intros H; inversion H; subst. rewrite <- in_rev. intros Hx.
+  destruct (append_all_sound _ _ _ _ _ E x Hx) as [?|[[]|[]]]; auto.
+Qed.
+
+Lemma block_samples_nodup p k : block_samples p = Some k -> NoDup (map key k).
+Proof.
+  unfold block_samples. destruct (append_all p [] [] 0) as [k0|] eqn:E; [|discriminate].
+  intros H; inversion H; subst. rewrite map_rev. apply NoDup_rev. apply dec_rev_nodup.
+  eapply append_all_dec; eauto. simpl; auto.
+Qed.
+
+Lemma block_samples_nil : block_samples [] = Some [].
 Proof. reflexivity. Qed.
 
-Lemma block_samples_nonempty p : p <> [] -> block_samples p <> [].
+Lemma block_samples_complete p : ordered1 p ->
+  exists k, block_samples p = Some k /\ forall x, In x p -> In x k.
 Proof.
-  destruct p as [|a p]; [congruence|]. intros _ H.
-  assert (Hin : In a (block_samples (a :: p))).
-  { unfold block_samples. rewrite <- in_rev. simpl. apply commit_keeps. simpl; auto. }
-  rewrite H in Hin. destruct Hin.
+  intros Ho. unfold block_samples.
+  destruct (append_all_complete p [] [] 0) as (k & Hk & Hall); [simpl; auto| |].
+  - split; auto. simpl. intros x z _ H. discriminate.
+  - rewrite Hk. eexists; split; eauto. intros x Hx. rewrite <- in_rev. apply Hall. auto.
 Qed.
 
 (* ------------------------------------------------------------------ the block loop *)
-Definition block_of (S : list sample) (d t : Z) : list block :=
-  match block_samples (window S t (t + d)) with [] => [] | k => [mkBlock t k] end.
+Definition bsamp (S : list sample) (d t : Z) : list sample :=
+  match block_samples (window S t (t + d)) with Some k => k | None => [] end.
 
-(* what the loop produces, without the nextSampleTs shortcut *)
+Definition block_of (S : list sample) (d t : Z) : list block :=
+  match bsamp S d t with [] => [] | k => [mkBlock t k] end.
+
 Definition blocks_spec (S : list sample) (d : Z) (ts : list Z) : list block :=
   flat_map (block_of S d) ts.
+
+(* the loop without the nextSampleTs shortcut *)
+Fixpoint spec_loop (S : list sample) (d : Z) (ts : list Z) (acc : list block) : cb_res :=
+  match ts with
+  | [] => CBOk acc
+  | t :: r =>
+      match block_samples (window S t (t + d)) with
+      | None => CBErr acc
+      | Some k => spec_loop S d r (emit acc t k)
+      end
+  end.
+
+Definition res_blocks (r : cb_res) : list block := match r with CBOk b => b | CBErr b => b end.
 
 Fixpoint chain (d t : Z) (ts : list Z) : Prop :=
   match ts with [] => True | s :: r => s = t /\ chain d (t + d) r end.
 
-Lemma emit_block_of acc S d t : emit acc t (block_samples (window S t (t + d))) = acc ++ block_of S d t.
-Proof. unfold emit, block_of. destruct (block_samples _); [rewrite app_nil_r|]; reflexivity. Qed.
+Lemma chain_prefix d : forall a b t, chain d t (a ++ b) -> chain d t a.
+Proof. induction a as [|x a IH]; intros b t H; simpl in *; auto. destruct H; split; eauto. Qed.
+
+Lemma emit_eq acc t k : emit acc t k = acc ++ match k with [] => [] | _ => [mkBlock t k] end.
+Proof. unfold emit. destruct k; [rewrite app_nil_r|]; reflexivity. Qed.
 
 Lemma loop_spec input d : 0 < d -> well_formed input ->
   forall ts t next acc, chain d t ts ->
     (forall x, In x (samples_of input) -> t <= s_ts x -> next = maxInt64 \/ next <= s_ts x) ->
-    loop input d ts next acc = CBOk (acc ++ blocks_spec (samples_of input) d ts).
+    loop input d ts next acc = spec_loop (samples_of input) d ts acc.
 Proof.
   intros Hd Hw. induction ts as [|s r IH]; intros t next acc Hc Hinv.
-  - simpl. rewrite app_nil_r. reflexivity.
-  - destruct Hc as [-> Hc]. cbn [loop blocks_spec flat_map]. fold (blocks_spec (samples_of input) d r).
+  - reflexivity.
+  - destruct Hc as [-> Hc]. cbn [loop spec_loop].
     destruct (negb (next =? maxInt64) && (next >=? t + d)) eqn:E.
     + apply andb_true_iff in E. destruct E as [E1 E2].
       apply negb_true_iff in E1. apply Z.eqb_neq in E1. apply Z.geb_le in E2.
@@ -347,19 +512,53 @@ Proof.
         destruct (t <=? s_ts x) eqn:E3; auto. apply Z.leb_le in E3.
         destruct (Hinv x Hx E3) as [?|?]; [contradiction|].
         simpl. apply Z.ltb_ge. lia. }
-      unfold block_of at 1. rewrite Hnil, block_samples_nil. simpl.
+      rewrite Hnil, block_samples_nil. simpl emit.
       apply (IH (t + d)); auto.
       intros x Hx Hle. apply Hinv; auto. lia.
     + destruct (scan_spec input t (t + d) ltac:(lia) Hw maxInt64 []) as (n' & Hs & _ & Hall).
       rewrite Hs. simpl rev. cbn [app].
-      rewrite emit_block_of. rewrite app_assoc.
+      destruct (block_samples (window (samples_of input) t (t + d))); auto.
       apply (IH (t + d)); auto.
+Qed.
+
+Lemma spec_loop_prefix S d : forall ts acc, exists ts1 ts2, ts = ts1 ++ ts2 /\
+  res_blocks (spec_loop S d ts acc) = acc ++ blocks_spec S d ts1.
+Proof.
+  induction ts as [|t r IH]; intros acc.
+  - exists [], []. simpl. rewrite app_nil_r. auto.
+  - cbn [spec_loop]. destruct (block_samples (window S t (t + d))) as [k|] eqn:E.
+    + destruct (IH (emit acc t k)) as (r1 & r2 & Hr & Hres).
+      exists (t :: r1), r2. split; [simpl; congruence|].
+      rewrite Hres, emit_eq, <- app_assoc. f_equal.
+      change (blocks_spec S d (t :: r1)) with (block_of S d t ++ blocks_spec S d r1). f_equal.
+      unfold block_of, bsamp. rewrite E. destruct k; reflexivity.
+    + exists [], (t :: r). simpl. rewrite app_nil_r. auto.
+Qed.
+
+Lemma spec_loop_ok S d : forall ts acc,
+  (forall t, In t ts -> block_samples (window S t (t + d)) <> None) ->
+  spec_loop S d ts acc = CBOk (acc ++ blocks_spec S d ts).
+Proof.
+  induction ts as [|t r IH]; intros acc H.
+  - simpl. rewrite app_nil_r. auto.
+  - cbn [spec_loop]. destruct (block_samples (window S t (t + d))) as [k|] eqn:E.
+    + rewrite IH by (intros t' Ht'; apply H; simpl; auto).
+      rewrite emit_eq, <- app_assoc. do 2 f_equal.
+      change (blocks_spec S d (t :: r)) with (block_of S d t ++ blocks_spec S d r). f_equal.
+      unfold block_of, bsamp. rewrite E. destruct k; reflexivity.
+    + exfalso. apply (H t); simpl; auto.
 Qed.
 
 Lemma chain_starts d m : forall n k, chain d (m + d * Z.of_nat k) (map (fun i => m + d * Z.of_nat i) (seq k n)).
 Proof.
   induction n as [|n IH]; intros k; simpl; auto. split; auto.
   replace (m + d * Z.of_nat k + d) with (m + d * Z.of_nat (S k)) by lia. apply IH.
+Qed.
+
+Lemma chain_starts0 d m M : chain d m (starts m M d).
+Proof.
+  pose proof (chain_starts d m (Z.to_nat ((M - m) / d + 1)) 0) as Hc.
+  simpl Z.of_nat in Hc. rewrite Z.mul_0_r, Z.add_0_r in Hc. exact Hc.
 Qed.
 
 Lemma in_starts m M d t : 0 < d -> (In t (starts m M d) <-> exists i, 0 <= i <= (M - m) / d /\ t = m + d * i).
@@ -370,17 +569,28 @@ Proof.
 Qed.
 
 (* ------------------------------------------------------------------ contents of the blocks *)
-Lemma all_samples_spec S d ts :
-  all_samples (blocks_spec S d ts) = flat_map (fun t => block_samples (window S t (t + d))) ts.
+Lemma all_samples_spec S d ts : all_samples (blocks_spec S d ts) = flat_map (bsamp S d) ts.
 Proof.
   unfold all_samples, blocks_spec. induction ts as [|t r IH]; simpl; auto.
   rewrite flat_map_app, IH. f_equal.
-  unfold block_of. destruct (block_samples (window S t (t + d))) eqn:E; simpl; auto. rewrite app_nil_r. auto.
+  unfold block_of. destruct (bsamp S d t) eqn:E; simpl; auto. rewrite app_nil_r. auto.
 Qed.
 
 Lemma window_in S t up x : In x (window S t up) <-> In x S /\ t <= s_ts x < up.
 Proof.
   unfold window. rewrite filter_In. unfold in_window. rewrite andb_true_iff, Z.leb_le, Z.ltb_lt. tauto.
+Qed.
+
+Lemma bsamp_in S d t x : In x (bsamp S d t) -> In x S /\ t <= s_ts x < t + d.
+Proof.
+  unfold bsamp. destruct (block_samples (window S t (t + d))) as [k|] eqn:E; [|intros []].
+  intros H. apply window_in. eapply block_samples_in; eauto.
+Qed.
+
+Lemma bsamp_nodup S d t : NoDup (map key (bsamp S d t)).
+Proof.
+  unfold bsamp. destruct (block_samples (window S t (t + d))) as [k|] eqn:E; [|constructor].
+  eapply block_samples_nodup; eauto.
 Qed.
 
 Lemma ordered_window d S k : 0 < d -> ordered d S -> ordered1 (window S (d * k) (d * k + d)).
@@ -395,24 +605,24 @@ Proof.
 Qed.
 
 Lemma flat_lower S d : 0 < d -> forall ts t, chain d t ts ->
-  forall x, In x (flat_map (fun t => block_samples (window S t (t + d))) ts) -> t <= s_ts x.
+  forall x, In x (flat_map (bsamp S d) ts) -> t <= s_ts x.
 Proof.
   intros Hd. induction ts as [|s r IH]; intros t Hc x Hx; [destruct Hx|].
   destruct Hc as [-> Hc]. simpl in Hx. apply in_app_or in Hx. destruct Hx as [Hx|Hx].
-  - apply block_samples_in, window_in in Hx. lia.
+  - apply bsamp_in in Hx. lia.
   - specialize (IH _ Hc x Hx). lia.
 Qed.
 
 Lemma flat_nodup S d : 0 < d -> forall ts t, chain d t ts ->
-  NoDup (map key (flat_map (fun t => block_samples (window S t (t + d))) ts)).
+  NoDup (map key (flat_map (bsamp S d) ts)).
 Proof.
   intros Hd. induction ts as [|s r IH]; intros t Hc; simpl; [constructor|].
   destruct Hc as [-> Hc]. rewrite map_app. apply NoDup_app_intro.
-  - apply block_samples_nodup.
+  - apply bsamp_nodup.
   - eapply IH; eauto.
   - intros kx H1 H2. apply in_map_iff in H1, H2.
     destruct H1 as (x & Hkx & Hx). destruct H2 as (y & Hky & Hy).
-    apply block_samples_in, window_in in Hx.
+    apply bsamp_in in Hx.
     pose proof (flat_lower S d Hd r (t + d) Hc y Hy) as Hlow.
     assert (s_ts x = s_ts y) by (unfold key, s_ts in *; congruence). lia.
 Qed.
@@ -425,24 +635,34 @@ Proof.
   unfold s_ts, minInt64, maxInt64; simpl. lia.
 Qed.
 
-Lemma backfill_wf mx input : well_formed input ->
-  (forall x, In x (samples_of input) -> minInt64 < s_ts x < maxInt64) ->
+Definition of_cb (r : cb_res) : bf_res := match r with CBOk bl => BFOk bl | CBErr w => BFCreateErr w end.
+
+Lemma backfill_wf0 mx input : well_formed input ->
   exists maxt mint d,
-    get_min_max input = MMOk maxt mint /\ compatible_block_duration mx = Some d /\ 0 < d /\
-    backfill mx input = BFOk (blocks_spec (samples_of input) d (starts (d * (mint / d)) maxt d)) /\
-    forall x, In x (samples_of input) -> mint <= s_ts x <= maxt.
+    get_min_max input = MMOk maxt mint /\ compatible_block_duration mx = Some d /\
+    In d block_ranges /\ 0 < d /\
+    backfill mx input = of_cb (spec_loop (samples_of input) d (starts (d * (mint / d)) maxt d) []).
 Proof.
-  intros Hw Hr. unfold backfill, backfill_with, get_min_max.
+  intros Hw. unfold backfill, backfill_with, get_min_max.
   destruct (mm_loop_wf_ok input Hw minInt64 maxInt64) as (A & B & Hmm).
   destruct (cbd_spec mx) as (d & Hd & Hin & _).
   pose proof (block_ranges_pos d Hin) as Hpos.
-  exists A, B, d. rewrite Hmm, Hd.
-  destruct (mm_loop_bounds _ _ _ _ _ Hmm Hr) as (_ & _ & Hb).
-  repeat split; auto; try lia; try apply Hb; auto.
+  exists A, B, d. rewrite Hmm, Hd. repeat split; auto; try lia.
   unfold create_blocks_with. rewrite align_start_floor by lia.
   rewrite (loop_spec input d ltac:(lia) Hw _ (d * (B / d)) maxInt64 []); auto.
-  - pose proof (chain_starts d (d * (B / d)) (Z.to_nat ((A - d * (B / d)) / d + 1)) 0) as Hc.
-    simpl Z.of_nat in Hc. rewrite Z.mul_0_r, Z.add_0_r in Hc. exact Hc.
+  apply chain_starts0.
+Qed.
+
+Lemma backfill_wf mx input : well_formed input ->
+  (forall x, In x (samples_of input) -> minInt64 < s_ts x < maxInt64) ->
+  exists maxt mint d,
+    compatible_block_duration mx = Some d /\ In d block_ranges /\ 0 < d /\
+    backfill mx input = of_cb (spec_loop (samples_of input) d (starts (d * (mint / d)) maxt d) []) /\
+    forall x, In x (samples_of input) -> mint <= s_ts x <= maxt.
+Proof.
+  intros Hw Hr. destruct (backfill_wf0 mx input Hw) as (A & B & d & Hmm & Hd & Hin & Hpos & Hbf).
+  exists A, B, d. repeat split; auto;
+  destruct (mm_loop_bounds _ _ _ _ _ Hmm Hr) as (_ & _ & Hb); apply Hb; auto.
 Qed.
 
 Theorem partition mx input :
@@ -453,15 +673,24 @@ Theorem partition mx input :
     NoDup (map key (all_samples bl)).
 Proof.
   intros Hw Hr Ho.
-  destruct (backfill_wf mx input Hw (in_range_strict input Hr)) as (A & B & d & Hmm & Hd & Hpos & Hbf & Hb).
+  destruct (backfill_wf mx input Hw (in_range_strict input Hr)) as (A & B & d & Hd & _ & Hpos & Hbf & Hb).
   specialize (Ho d Hd).
-  eexists. split; [exact Hbf|]. rewrite all_samples_spec. split.
+  set (a := d * (B / d)) in *.
+  assert (Hwin : forall t, In t (starts a A d) -> exists k, t = d * k /\
+            exists ks, block_samples (window (samples_of input) t (t + d)) = Some ks /\
+                       forall x, In x (window (samples_of input) t (t + d)) -> In x ks).
+  { intros t Ht. apply in_starts in Ht; auto. destruct Ht as (i & Hi & ->).
+    exists (B / d + i). split; [unfold a; lia|].
+    replace (a + d * i) with (d * (B / d + i)) by (unfold a; lia).
+    apply block_samples_complete. apply ordered_window; auto. }
+  rewrite spec_loop_ok in Hbf.
+  2:{ intros t Ht. destruct (Hwin t Ht) as (k & _ & ks & Hks & _). congruence. }
+  simpl in Hbf. eexists. split; [exact Hbf|]. rewrite all_samples_spec. split.
   - intros s t v. rewrite <- samples_of_in. split.
     + intros H. apply in_flat_map in H. destruct H as (t0 & _ & H).
-      apply block_samples_in, window_in in H. tauto.
+      apply bsamp_in in H. tauto.
     + intros H. apply in_flat_map.
       pose proof (Hb _ H) as Hbx. unfold s_ts in Hbx; simpl in Hbx.
-      set (a := d * (B / d)) in *.
       assert (Ha : a <= B < a + d).
       { unfold a. pose proof (Z.div_mod B d ltac:(lia)). pose proof (Z.mod_pos_bound B d Hpos). lia. }
       set (i := (t - a) / d).
@@ -469,15 +698,11 @@ Proof.
       { unfold i. split; [apply Z.div_pos; lia|apply Z.div_le_mono; lia]. }
       assert (Ht : a + d * i <= t < a + d * i + d).
       { unfold i. pose proof (Z.div_mod (t - a) d ltac:(lia)). pose proof (Z.mod_pos_bound (t - a) d Hpos). lia. }
-      exists (a + d * i). split.
-      * apply in_starts; auto. exists i. auto.
-      * apply block_samples_complete.
-        -- replace (a + d * i) with (d * (B / d + i)) by (unfold a; lia).
-           apply ordered_window; auto.
-        -- apply window_in. unfold s_ts; simpl. split; auto.
-  - eapply flat_nodup; eauto.
-    pose proof (chain_starts d (d * (B / d)) (Z.to_nat ((A - d * (B / d)) / d + 1)) 0) as Hc.
-    simpl Z.of_nat in Hc. rewrite Z.mul_0_r, Z.add_0_r in Hc. exact Hc.
+      assert (Hin : In (a + d * i) (starts a A d)) by (apply in_starts; auto; exists i; auto).
+      exists (a + d * i). split; auto.
+      destruct (Hwin _ Hin) as (k & _ & ks & Hks & Hall).
+      unfold bsamp. rewrite Hks. apply Hall. apply window_in. unfold s_ts; simpl. split; auto.
+  - eapply flat_nodup; eauto. apply chain_starts0.
 Qed.
 
 (* ------------------------------------------------------------------ rejection / totality *)
@@ -490,31 +715,46 @@ Proof.
   exfalso. apply mm_loop_ok_wf in E. destruct H as [(s & v & H)|H]; apply (E _ H).
 Qed.
 
-Lemma backfill_rejected_only_if mx input e : backfill mx input = BFRejected e -> ~ well_formed input.
-Proof.
-  intros H Hw. unfold backfill, backfill_with, get_min_max in H.
-  destruct (mm_loop_wf_ok input Hw minInt64 maxInt64) as (A & B & Hmm). rewrite Hmm in H.
-  destruct (compatible_block_duration mx); [|discriminate].
-  destruct (create_blocks_with _ _ _ _ _); discriminate.
-Qed.
-
-(* never a panic, never an error after some blocks were written (one appender batch per block) *)
+(* never a panic on ranges[idx]; rejected iff not well-formed *)
 Lemma backfill_total mx input :
   (exists e, backfill mx input = BFRejected e /\ ~ well_formed input) \/
-  (exists bl, backfill mx input = BFOk bl /\ well_formed input).
+  (exists bl, backfill mx input = BFOk bl /\ well_formed input) \/
+  (exists w, backfill mx input = BFCreateErr w /\ well_formed input).
 Proof.
-  unfold backfill, backfill_with, get_min_max.
   destruct (mm_loop input minInt64 maxInt64) as [A B| |] eqn:E.
   - right. pose proof (mm_loop_ok_wf _ _ _ _ _ E) as Hw.
-    destruct (cbd_spec mx) as (d & Hd & Hin & _). pose proof (block_ranges_pos d Hin) as Hpos.
-    rewrite Hd. unfold create_blocks_with. rewrite align_start_floor by lia.
-    rewrite (loop_spec input d ltac:(lia) Hw _ (d * (B / d)) maxInt64 []); eauto.
-    pose proof (chain_starts d (d * (B / d)) (Z.to_nat ((A - d * (B / d)) / d + 1)) 0) as Hc.
-    simpl Z.of_nat in Hc. rewrite Z.mul_0_r, Z.add_0_r in Hc. exact Hc.
-  - left. eexists. split; eauto. intros Hw.
+    destruct (backfill_wf0 mx input Hw) as (A' & B' & d & _ & _ & _ & _ & Hbf).
+    rewrite Hbf. destruct (spec_loop _ _ _ _); simpl; eauto.
+  - left. unfold backfill, backfill_with, get_min_max. rewrite E. eexists. split; eauto. intros Hw.
     destruct (mm_loop_wf_ok input Hw minInt64 maxInt64) as (A & B & Hmm). congruence.
-  - left. eexists. split; eauto. intros Hw.
+  - left. unfold backfill, backfill_with, get_min_max. rewrite E. eexists. split; eauto. intros Hw.
     destruct (mm_loop_wf_ok input Hw minInt64 maxInt64) as (A & B & Hmm). congruence.
+Qed.
+
+(* an error after the scan ("add sample") only for inputs that are not ordered *)
+Lemma create_err_unordered mx input w : in_range input -> backfill mx input = BFCreateErr w ->
+  well_formed input /\ ~ (forall d, compatible_block_duration mx = Some d -> ordered d (samples_of input)).
+Proof.
+  intros Hr H. destruct (backfill_total mx input) as [(e & He & _)|[(bl & Hbl & _)|(w' & Hw' & Hwf)]]; try congruence.
+  split; auto. intros Ho. destruct (partition mx input Hwf Hr Ho) as (bl & Hbl & _). congruence.
+Qed.
+
+(* the blocks a run leaves in the output directory: all of them on success, those written
+   before the error otherwise *)
+Definition written (r : bf_res) : list block :=
+  match r with BFOk bl => bl | BFCreateErr w => w | _ => [] end.
+
+Lemma written_prefix mx input : well_formed input ->
+  (forall x, In x (samples_of input) -> minInt64 < s_ts x < maxInt64) ->
+  exists d k ts, compatible_block_duration mx = Some d /\ In d block_ranges /\ 0 < d /\
+    chain d (d * k) ts /\ written (backfill mx input) = blocks_spec (samples_of input) d ts.
+Proof.
+  intros Hw Hr.
+  destruct (backfill_wf mx input Hw Hr) as (A & B & d & Hd & Hin & Hpos & Hbf & Hb).
+  destruct (spec_loop_prefix (samples_of input) d (starts (d * (B / d)) A d) []) as (ts1 & ts2 & Hts & Hres).
+  exists d, (B / d), ts1. repeat split; auto.
+  - apply (chain_prefix d ts1 ts2). rewrite <- Hts. apply chain_starts0.
+  - rewrite Hbf. simpl in Hres. rewrite <- Hres. destruct (spec_loop _ _ _ _); reflexivity.
 Qed.
 
 (* ------------------------------------------------------------------ alignment *)
@@ -566,12 +806,12 @@ Proof.
   - destruct Hc as [-> Hc]. destruct Hk as (k & Hk).
     destruct (IH (t + d) Hc) as (IH1 & IH2 & IH3); [exists (k + 1); lia|].
     unfold blocks_spec in *. cbn [flat_map]. unfold block_of at 1 3 5.
-    destruct (block_samples (window S t (t + d))) as [|x0 k0] eqn:E.
+    destruct (bsamp S d t) as [|x0 k0] eqn:E.
     + simpl. repeat split; auto. intros b Hb. specialize (IH2 b Hb). lia.
     + cbn [app map]. repeat split.
       * constructor; auto. unfold block_aligned. cbn [b_lo b_samples].
         assert (Hin : forall x, In x (x0 :: k0) -> t <= s_ts x < t + d /\ minInt64 < s_ts x < maxInt64).
-        { intros x Hx. rewrite <- E in Hx. apply block_samples_in, window_in in Hx.
+        { intros x Hx. rewrite <- E in Hx. apply bsamp_in in Hx.
           destruct Hx as [Hx ?]. split; auto. }
         split; [exists (a + k); lia|]. split; [discriminate|].
         split; [intros x Hx; apply Hin; auto|].
@@ -592,44 +832,44 @@ Proof.
         apply in_map_iff in Hlo. destruct Hlo as (b & <- & Hb). specialize (IH2 b Hb). simpl. lia.
 Qed.
 
-Theorem aligned mx input bl : in_range input -> backfill mx input = BFOk bl ->
+Lemma written_cases mx input bl :
+  backfill mx input = BFOk bl \/ backfill mx input = BFCreateErr bl ->
+  well_formed input /\ written (backfill mx input) = bl.
+Proof.
+  intros H. destruct (backfill_total mx input) as [(e & He & _)|[(b & Hb & Hw)|(w & Hw' & Hw)]];
+    destruct H as [H|H]; try congruence; split; auto; rewrite H; reflexivity.
+Qed.
+
+Theorem aligned mx input bl : in_range input ->
+  backfill mx input = BFOk bl \/ backfill mx input = BFCreateErr bl ->
   exists d, compatible_block_duration mx = Some d /\ In d block_ranges /\
     (default_block_duration <= mx -> d <= mx) /\
     (forall r, In r block_ranges -> r <= mx -> r <= d) /\
     Forall (block_aligned d) bl /\ StronglySorted Z.lt (map b_lo bl).
 Proof.
-  intros Hr Hbf.
-  destruct (backfill_total mx input) as [(e & He & _)|(bl' & Hbl & Hw)]; [congruence|].
-  destruct (backfill_wf mx input Hw (in_range_strict input Hr)) as (A & B & d & Hmm & Hd & Hpos & Hbf' & Hb).
-  destruct (cbd_spec mx) as (d' & Hd' & Hin & Hle & Hmax).
+  intros Hr Hbf. destruct (written_cases _ _ _ Hbf) as [Hw Hwr].
+  destruct (written_prefix mx input Hw (in_range_strict input Hr)) as (d & k & ts & Hd & Hin & Hpos & Hc & Hwr').
+  destruct (cbd_spec mx) as (d' & Hd' & _ & Hle & Hmax).
   assert (d' = d) by congruence. subst d'.
-  exists d. repeat split; auto.
-  - rewrite Hbf in Hbf'. inversion Hbf'; subst.
-    apply (blocks_spec_aligned (samples_of input) d (B / d) Hpos (in_range_strict input Hr) _ (d * (B / d))).
-    + pose proof (chain_starts d (d * (B / d)) (Z.to_nat ((A - d * (B / d)) / d + 1)) 0) as Hc.
-      simpl Z.of_nat in Hc. rewrite Z.mul_0_r, Z.add_0_r in Hc. exact Hc.
-    + exists 0. lia.
-  - rewrite Hbf in Hbf'. inversion Hbf'; subst.
-    apply (blocks_spec_aligned (samples_of input) d (B / d) Hpos (in_range_strict input Hr) _ (d * (B / d))).
-    + pose proof (chain_starts d (d * (B / d)) (Z.to_nat ((A - d * (B / d)) / d + 1)) 0) as Hc.
-      simpl Z.of_nat in Hc. rewrite Z.mul_0_r, Z.add_0_r in Hc. exact Hc.
-    + exists 0. lia.
+  rewrite Hwr in Hwr'. clear Hwr. subst bl.
+  destruct (blocks_spec_aligned (samples_of input) d k Hpos (in_range_strict input Hr) ts (d * k) Hc) as (H1 & _ & H3);
+    [exists 0; lia|].
+  exists d. split; [exact Hd|]. split; [exact Hin|]. split; [exact Hle|]. split; [exact Hmax|].
+  split; [exact H1|exact H3].
 Qed.
 
-(* without the ordering hypothesis nothing is invented and nothing is stored twice *)
-Theorem sound mx input bl : in_range input -> backfill mx input = BFOk bl ->
+(* whatever the order of the lines: nothing is invented and nothing is stored twice *)
+Theorem sound mx input bl : in_range input ->
+  backfill mx input = BFOk bl \/ backfill mx input = BFCreateErr bl ->
   (forall s t v, In (s, t, v) (all_samples bl) -> In (ESample s (Some t) v) input) /\
   NoDup (map key (all_samples bl)).
 Proof.
-  intros Hr Hbf.
-  destruct (backfill_total mx input) as [(e & He & _)|(bl' & Hbl & Hw)]; [congruence|].
-  destruct (backfill_wf mx input Hw (in_range_strict input Hr)) as (A & B & d & Hmm & Hd & Hpos & Hbf' & Hb).
-  rewrite Hbf in Hbf'. inversion Hbf'; subst. rewrite all_samples_spec. split.
+  intros Hr Hbf. destruct (written_cases _ _ _ Hbf) as [Hw Hwr].
+  destruct (written_prefix mx input Hw (in_range_strict input Hr)) as (d & k & ts & Hd & Hin & Hpos & Hc & Hwr').
+  rewrite Hwr in Hwr'. clear Hwr. subst bl. rewrite all_samples_spec. split.
   - intros s t v H. apply samples_of_in. apply in_flat_map in H. destruct H as (t0 & _ & H).
-    apply block_samples_in, window_in in H. tauto.
+    apply bsamp_in in H. tauto.
   - eapply flat_nodup; eauto.
-    pose proof (chain_starts d (d * (B / d)) (Z.to_nat ((A - d * (B / d)) / d + 1)) 0) as Hc.
-    simpl Z.of_nat in Hc. rewrite Z.mul_0_r, Z.add_0_r in Hc. exact Hc.
 Qed.
 
 (* ------------------------------------------------------------------ boolean checkers *)
@@ -664,6 +904,11 @@ Definition ex_input : list entry :=
 
 Lemma two62 : 2 ^ 62 = 4611686018427387904. Proof. reflexivity. Qed.
 
+Ltac in_range_tac :=
+  let s := fresh "s" in let t := fresh "t" in let v := fresh "v" in let H := fresh "H" in
+  intros s t v H; rewrite two62; simpl in H;
+  repeat (destruct H as [H|H]; [try discriminate; inversion H; subst; lia|]); destruct H.
+
 Lemma ex_input_ok : well_formed ex_input /\ in_range ex_input /\
   (forall d, compatible_block_duration 0 = Some d -> ordered d (samples_of ex_input)) /\
   backfill 0 ex_input = BFOk
@@ -674,8 +919,7 @@ Lemma ex_input_ok : well_formed ex_input /\ in_range ex_input /\
 Proof.
   split; [|split; [|split]].
   - apply well_formedb_spec. reflexivity.
-  - intros s t v H. rewrite two62. simpl in H.
-    repeat (destruct H as [H|H]; [try discriminate; inversion H; subst; lia|]). destruct H.
+  - in_range_tac.
   - intros d Hd. inversion Hd; subst. apply orderedb_spec. reflexivity.
   - vm_compute. reflexivity.
 Qed.
@@ -690,8 +934,7 @@ Lemma partition_old_refuted : exists mx input,
 Proof.
   exists 0, old_input. split; [|split; [|split]].
   - apply well_formedb_spec. reflexivity.
-  - intros s t v H. rewrite two62. simpl in H.
-    repeat (destruct H as [H|H]; [try discriminate; inversion H; subst; lia|]). destruct H.
+  - in_range_tac.
   - intros d Hd. inversion Hd; subst. apply orderedb_spec. reflexivity.
   - eexists. split; [vm_compute; reflexivity|].
     exists 0, (-1), 7. split; [simpl; auto|]. simpl. intros [H|[]]. inversion H.
@@ -712,11 +955,33 @@ Lemma partition_unordered_refuted : exists mx input,
 Proof.
   exists 0, unordered_input. split; [|split].
   - apply well_formedb_spec. reflexivity.
-  - intros s t v H. rewrite two62. simpl in H.
-    repeat (destruct H as [H|H]; [try discriminate; inversion H; subst; lia|]). destruct H.
+  - in_range_tac.
   - eexists. split; [vm_compute; reflexivity|].
     exists 0, 100000, 2. split; [simpl; auto|]. simpl. intros [H|[]]. inversion H.
 Qed.
 
 Lemma reject_example : backfill 0 [ESample 0 (Some 5) 1; ESample 1 None 2; ESample 0 (Some 7200005) 3] = BFRejected RejNoTs.
 Proof. reflexivity. Qed.
+
+(* 5000 series with one sample each in the window [0, 2h), preceded by one sample in the window
+   before; then series 0 again.  The 5000th Append triggers a Commit, so the last line is
+   checked by Append against committed samples. *)
+Definition batch_input (last : entry) : list entry :=
+  ESample 0 (Some (-1)) 1 :: map (fun i => ESample (Z.of_nat i) (Some 5) 1) (seq 0 5000) ++ [last].
+
+(* going back in time after the batch boundary: "add sample: out of order sample"; the block
+   of the earlier window has already been written *)
+Lemma batch_boundary_error :
+  backfill 0 (batch_input (ESample 0 (Some 4) 1)) = BFCreateErr [mkBlock (-7200000) [(0, -1, 1)]].
+Proof. vm_compute. reflexivity. Qed.
+
+(* the same line one position earlier (inside the first batch) is dropped silently: the run
+   succeeds with 5000 samples in the second block, (0, 4, 1) not among them *)
+Lemma batch_inside_dropped :
+  match backfill 0 (ESample 0 (Some (-1)) 1 :: ESample 0 (Some 5) 1 :: ESample 0 (Some 4) 1 ::
+                    map (fun i => ESample (Z.of_nat i) (Some 5) 1) (seq 1 4999)) with
+  | BFOk [b1; b2] => (Z.of_nat (length (b_samples b2)) =? 5000) &&
+                     negb (existsb (fun x => (s_sid x =? 0) && (s_ts x =? 4)) (b_samples b2))
+  | _ => false
+  end = true.
+Proof. vm_compute. reflexivity. Qed.
